@@ -14,6 +14,7 @@ from __future__ import annotations
 import math
 from typing import Any, Callable, Mapping, Sequence, Union
 
+import numpy as np
 import onnx_ir as ir
 
 import onnxscript
@@ -59,6 +60,20 @@ def _float_signs(value: Any) -> Any:
     if isinstance(value, float):
         return math.copysign(1.0, value) < 0.0
     return None
+
+
+def _make_tensor(value: Any, dtype: ir.DataType | None, name: str) -> ir.TensorProtocol:
+    """Create the tensor of a Python constant.
+
+    A number is converted to *dtype* with the semantics of ONNX Cast (what the
+    dynamic ``CastLike`` does when the dtype is not known at graph-construction
+    time): an out-of-range int wraps around, where ``np.array(-3, dtype=np.uint8)``
+    raises OverflowError under NumPy 2.
+    """
+    elements = value if isinstance(value, (list, tuple)) else (value,)
+    if dtype is not None and not any(isinstance(v, str) for v in elements):
+        return ir.tensor(np.asarray(value).astype(dtype.numpy()), dtype=dtype, name=name)
+    return ir.tensor(value, dtype=dtype, name=name)
 
 
 def _type_suffix(element_type: type) -> str:
@@ -647,7 +662,7 @@ class GraphBuilder(BuilderBase):
                 return root._constant_cache[cache_key]
             type_suffix = _dtype_suffix(dtype) if dtype is not None else ""
             name = _constant_name(value, type_suffix, len(root._constant_cache))
-            tensor = ir.tensor(value, dtype=dtype, name=name)
+            tensor = _make_tensor(value, dtype, name)
             ir_value = root.initializer(tensor, name=name, qualify=False)
             root._constant_cache[cache_key] = ir_value
             return ir_value
@@ -664,7 +679,7 @@ class GraphBuilder(BuilderBase):
                 return root._constant_cache[cache_key]
             type_suffix = _dtype_suffix(dtype) if dtype is not None else ""
             name = _constant_name(value, type_suffix, len(root._constant_cache))
-            tensor = ir.tensor(list(value), dtype=dtype, name=name)
+            tensor = _make_tensor(list(value), dtype, name)
             ir_value = root.initializer(tensor, name=name, qualify=False)
             root._constant_cache[cache_key] = ir_value
             return ir_value
